@@ -29,6 +29,8 @@ type Step struct {
 	M      MSpec    `json:"m"`
 	Routes []string `json:"routes,omitempty"`
 	MW     int      `json:"mw,omitempty"`
+	// Recov > 0: the router gets WithStatusRecovery(Recov) of its own (Group.New option / NewRouter option)
+	Recov int `json:"recov,omitempty"`
 }
 
 type Rq struct {
@@ -36,11 +38,16 @@ type Rq struct {
 	Path   string `json:"path"`
 	Host   string `json:"host"`
 	Accept string `json:"accept"`
+	// Panic: the handler that finally answers panics
+	Panic bool `json:"panic,omitempty"`
 }
 
 type Case struct {
-	Steps []Step `json:"steps"`
-	Reqs  []Rq   `json:"reqs"`
+	// GroupRecov: the group is made with WithStatusRecovery(590): its own not-found path and the routers made by
+	// Group.New without a recovery option of their own answer 590 to a panic
+	GroupRecov bool   `json:"group_recov,omitempty"`
+	Steps      []Step `json:"steps"`
+	Reqs       []Rq   `json:"reqs"`
 }
 
 var (
@@ -111,12 +118,16 @@ func genMatcher(t *rapid.T, depth int) MSpec {
 
 func gen(t *rapid.T) Case {
 	var c Case
+	c.GroupRecov = rapid.Bool().Draw(t, "groupRecov")
 	for i, n := 0, rapid.IntRange(1, rig.Up(8)).Draw(t, "nsteps"); i < n; i++ {
 		var s Step
 		switch k := rapid.IntRange(0, 9).Draw(t, "skind"); {
 		case k < 6 || i == 0:
 			s = Step{Kind: rapid.SampledFrom([]string{"new", "add"}).Draw(t, "how"), Name: rapid.SampledFrom(names).Draw(t, "name"), M: genMatcher(t, 0)}
 			s.Routes = rapid.SliceOfNDistinct(rapid.SampledFrom(routePool), 1, 4, rapid.ID[string]).Draw(t, "routes")
+			if rapid.IntRange(0, 2).Draw(t, "ownRecov") == 0 {
+				s.Recov = 560 + rapid.IntRange(0, 9).Draw(t, "recovCode")
+			}
 		case k < 7:
 			s = Step{Kind: "remove", Name: rapid.SampledFrom(names).Draw(t, "rmname")}
 		case k < 8:
@@ -133,6 +144,7 @@ func gen(t *rapid.T) Case {
 			Path:   rapid.SampledFrom([]string{"/v1/x", "/v2/y/7", "/x", "/v1/v1/x", "/y/7", "/v1/zz", "/v11/x", "/v1", "/v2/v1/x", "/", "/v1/", "/7/p/c", "/v1/7/p/c", "/v1/7/p/b"}).Draw(t, "path"),
 			Host:   rapid.SampledFrom([]string{"a.com", "q.b.com", "c.com", "A.COM:80", "d.com", "", "q.b.net", "q.b.org", "x.b.com.cn"}).Draw(t, "host"),
 			Accept: rapid.SampledFrom([]string{"a/b; version=v1", "", "a/b; version=v9", "a/b; version=v2", "junk;;"}).Draw(t, "accept"),
+			Panic:  rapid.IntRange(0, 5).Draw(t, "panic") == 0,
 		})
 	}
 	return c
@@ -276,7 +288,11 @@ type member struct {
 
 func check(c Case, st *rig.Stats) error {
 	env := rig.NewEnv()
-	g := env.NewGroup()
+	var gopts []mux.Option
+	if c.GroupRecov {
+		gopts = append(gopts, mux.WithStatusRecovery(590))
+	}
+	g := env.NewGroup(gopts...)
 	var members []member
 	var guse []string
 	nontriv := false
@@ -293,10 +309,14 @@ func check(c Case, st *rig.Stats) error {
 			}
 			var r *rig.Router
 			v, panicked := rig.Try(func() {
+				var own []mux.Option
+				if s.Recov > 0 {
+					own = append(own, mux.WithStatusRecovery(s.Recov))
+				}
 				if s.Kind == "new" {
-					r = &rig.Router{Router: g.New(s.Name, build(s.M)), Env: env, NotFound: g.NotFound}
+					r = &rig.Router{Router: g.New(s.Name, build(s.M), own...), Env: env, NotFound: g.NotFound}
 				} else {
-					r = env.NewRouter(s.Name, rig.Opts{})
+					r = env.NewRouter(s.Name, rig.Opts{Extra: own})
 					g.Add(build(s.M), r.Router)
 				}
 			})
@@ -365,9 +385,21 @@ func check(c Case, st *rig.Stats) error {
 			if es.andRejectedAfterAccept {
 				classes = append(classes, "and-rejected-after-an-accepting-member")
 			}
-			o := rig.Serve(g, rig.Req{Method: q.Method, Path: q.Path, Host: q.Host, Header: hdr})
-			if o.Panicked {
+			panicAt := ""
+			if q.Panic {
+				panicAt = "base"
+				classes = append(classes, "answering-handler-panics")
+			}
+			o := rig.Serve(g, rig.Req{Method: q.Method, Path: q.Path, Host: q.Host, Header: hdr, PanicAt: panicAt, PanicWith: "c13-boom"})
+			if o.Panicked && !q.Panic {
 				return rig.Violf("panic", "%s panicked: %v", where, o.PanicVal)
+			}
+			if win == nil && q.Panic {
+				// the group's own not-found path: contained iff the group has a recovery option (C16 looks closer)
+				if o.Panicked == c.GroupRecov || (c.GroupRecov && o.EffStatus() != 590) {
+					return rig.Violf("group-not-found-panic", "%s: no matcher accepts and the not-found handler panics; group recovery configured=%v, panic escaped=%v, status %d", where, c.GroupRecov, o.Panicked, o.EffStatus())
+				}
+				continue
 			}
 			if win == nil {
 				classes = append(classes, "no-router-accepts")
@@ -388,7 +420,10 @@ func check(c Case, st *rig.Stats) error {
 			}
 			classes = append(classes, fmt.Sprintf("accepted-by-router-%d-in-order", rejectedBefore+1))
 			// that router alone, serving the request the matcher produced
-			alone := rig.Serve(win.r, rig.Req{Method: q.Method, Path: ws.path, Host: q.Host, Header: hdr})
+			alone := rig.Serve(win.r, rig.Req{Method: q.Method, Path: ws.path, Host: q.Host, Header: hdr, PanicAt: panicAt, PanicWith: "c13-boom"})
+			if o.Panicked != alone.Panicked {
+				return rig.Violf("not-as-router-alone", "%s: the handler panics; through the group the panic escaped=%v (status %d), from router %q alone escaped=%v (status %d)", where, o.Panicked, o.EffStatus(), win.name, alone.Panicked, alone.EffStatus())
+			}
 			wantParams := map[string]string{}
 			// a route parameter with the name of a matcher parameter is written later and wins
 			for k, v := range ws.params {
@@ -414,7 +449,7 @@ func check(c Case, st *rig.Stats) error {
 }
 
 var stats = rig.NewStats("C13",
-	"rapid draws a history of 1-8 Group steps (New / Add of a router with a matcher built from nil, Hosts, path-version, header-version, And, Or with nesting depth <= 2 and a table drawn from six routes; Remove(name); Use; duplicate names) and 1-8 requests (paths with none / one / repeated version segments, hosts literal / wildcard / with port / unknown, Accept with matching / other / no version). After every step every request is evaluated by a pure reference matcher evaluator (And threads the request through its members and is the identity when any member rejects; Or takes the first accepting member on the original request) to pick the first accepting router; the group's answer must equal that router alone serving the produced path, plus the matcher's parameters, with URL.Path seen by CallFunc equal to the produced path; when nobody accepts the group's not-found handler runs with the Group.Use middlewares, no parameters and the original path. Names stay unique; removed routers never answer. Non-trivial: >=2 routers and at least one composite matcher rejected before the request was accepted or fell through; distinct by hash of the case",
+	"(since round 5: the group optionally has WithStatusRecovery(590), a third of the routers a WithStatusRecovery of their own, and one request in six makes the answering handler panic: through the group the outcome - escaped or not, status - must be the one the accepting router alone gives, and the group's own not-found path is contained iff the group has the option) rapid draws a history of 1-8 Group steps (New / Add of a router with a matcher built from nil, Hosts, path-version, header-version, And, Or with nesting depth <= 2 and a table drawn from six routes; Remove(name); Use; duplicate names) and 1-8 requests (paths with none / one / repeated version segments, hosts literal / wildcard / with port / unknown, Accept with matching / other / no version). After every step every request is evaluated by a pure reference matcher evaluator (And threads the request through its members and is the identity when any member rejects; Or takes the first accepting member on the original request) to pick the first accepting router; the group's answer must equal that router alone serving the produced path, plus the matcher's parameters, with URL.Path seen by CallFunc equal to the produced path; when nobody accepts the group's not-found handler runs with the Group.Use middlewares, no parameters and the original path. Names stay unique; removed routers never answer. Non-trivial: >=2 routers and at least one composite matcher rejected before the request was accepted or fell through; distinct by hash of the case",
 	"matcher parameter names are disjoint from route parameter names",
 	"Hosts members use the C02 reference resolver on the lower-cased host without a valid port")
 
